@@ -25,6 +25,8 @@ def cancelOf (s : String) : Cancel :=
   | "beforeCond" => .beforeCond | "duringCond" => .duringCond | "beforeThen" => .beforeThen
   | "duringThen" => .duringThen | "beforeRollback" => .beforeRollback | "duringRollback" => .duringRollback
   | "afterAll" => .afterAll | _ => .never
+def slowOf (s : String) : Slow :=
+  match s with | "cond" => .cond | "then" => .thn | "rollback" => .rollback | _ => .none
 def stepName : Step → String | .cond => "cond" | .thn => "then" | .rollback => "rollback"
 def retName : Ret → String | .nil => "nil" | .condErr => "condErr" | .thenErr => "thenErr"
 
@@ -52,7 +54,9 @@ def handleC17 (j : Json) : Json :=
   let thn := optOf (jstr (jget j "then"))
   let rb := optOf (jstr (jget j "rb"))
   let c := cancelOf (jstr (jget j "cancel"))
-  let m := if isPcr then pcr cond thn rb c else txn cond thn rb c
+  let sl := slowOf (jstr (jget j "slow"))
+  let traced := jbool (jget j "traced")
+  let m := if isPcr then pcr cond thn rb c sl else txn cond thn rb c sl
   let impl := jget j "impl"
   let icalls := (jarr (jget impl "calls")).map callOfJson
   let crashed := jhas impl "crash"
@@ -60,12 +64,14 @@ def handleC17 (j : Json) : Json :=
   let retKnown := crashed || ["nil", "condErr", "thenErr"].contains (jstr (jget impl "ret"))
   let ir : Result := { calls := icalls, ret := if crashed then m.ret else iret, panicked := crashed }
   let agree := sameCalls m.calls icalls && m.panicked == crashed && (crashed || m.ret == iret) && retKnown
-  let viol := (if isPcr then specPcr cond thn rb ir else specTxn cond thn rb ir) ++ (if retKnown then [] else ["returns-first-failure"])
+  let viol := (if isPcr then specPcr cond thn rb ir sl else specTxn cond thn rb ir sl) ++ (if retKnown then [] else ["returns-first-failure"]) ++
+    specTrace traced ((jarr (jget impl "calls")).map fun cj => jbool (jget cj "traced"))
   let failed := anyFailed cond thn
   verdict (jget j "id") agree
     (Json.mkObj [("calls", Json.arr (m.calls.map callToJson).toArray), ("ret", retName m.ret), ("panic", m.panicked)])
     (viol.map ("C17:" ++ ·))
-    ((if isPcr then "pcr" else "txn") ++ (if failed then "-failed" else "-ok") ++ (if c == .never then "" else "-cancel"))
+    ((if isPcr then "pcr" else "txn") ++ (if failed then "-failed" else "-ok") ++ (if c == .never then "" else "-cancel") ++
+      (if sl == .none then "" else "-slow") ++ (if traced then "-traced" else ""))
 end C17
 
 /-! ## C35 -/
